@@ -1294,3 +1294,62 @@ func ruleVolumeCount(rule string) ruleFn {
 		}
 	}
 }
+
+// ---------------------------------------------------------------------------
+// C18-QUORUMADMIT: a quorum replica is admitted by the common admission check
+// ---------------------------------------------------------------------------
+
+func ruleQuorumAdmit(rule string) ruleFn {
+	return func(c *Ctx) {
+		c.Doc(rule, "addQuorumReplicaNoLock lists the quorum replica and hands it to the replicator only after canAdd(address) held in this lock region - the check that scans BOTH lists: an address already attached as a data replica must not become a quorum replica as well (two backends for one address, the data one closed alone on removal, a Fatalf in setReplicaModeNoLock)")
+		fn := c.Anchor(rule, fCtl+"addQuorumReplicaNoLock")
+		if fn == nil {
+			return
+		}
+		R := NewRenderer(fn)
+		var sites []ssa.Instruction
+		sites = append(sites, StoresTo(fn, "Controller", "quorumReplicas")...)
+		sites = append(sites, CallsTo(fn, fRepl+"AddQuorumBackend")...)
+		if len(sites) == 0 {
+			c.Undecided(rule, FnName(fn)+" | admission sites", c.P.Pos(fn.Pos()), "no append to quorumReplicas / AddQuorumBackend found (moved?)")
+			return
+		}
+		addr := "$2"
+		for _, in := range CallsTo(fn, fRepl+"AddQuorumBackend") {
+			if cl, ok := in.(*ssa.Call); ok && len(cl.Call.Args) >= 2 {
+				addr = R.V(cl.Call.Args[1])
+			}
+		}
+		c.Guard(rule, fn, sites, "admit the quorum replica", lockOrUnlock, c.admitted(fn, "canAdd(address)", addr))
+	}
+}
+
+// ---------------------------------------------------------------------------
+// *-RELOADMODE: a reloaded instance continues in the mode of the one it replaces
+// ---------------------------------------------------------------------------
+
+func ruleReloadMode(rule string) ruleFn {
+	return func(c *Ctx) {
+		c.Doc(rule, "Replica.Reload hands the old instance's mode and Dirty flag to the new one (newReplica.mode = r.mode): revert and the end of a rebuild / clone reload a replica the controller keeps in its mode without sending it again - an RW replica reloaded into another mode applies writes without counting them")
+		fn := c.Anchor(rule, fRep+"Reload")
+		if fn == nil {
+			return
+		}
+		R := NewRenderer(fn)
+		n := 0
+		for _, f := range []struct{ field, want string }{{"mode", "$0.mode"}} {
+			for _, st := range StoresTo(fn, "Replica", f.field) {
+				n++
+				key := FnName(fn) + " | new instance takes over " + f.field
+				if v := R.V(st.(*ssa.Store).Val); v == f.want || v == c.P.callTerm(fRep+"currentMode", "$0") {
+					c.OK(rule, key, c.P.InstrPos(st), v, false)
+				} else {
+					c.Bad(rule, key, c.P.InstrPos(st), "the new instance's "+f.field+" is set to "+v+", not to the old instance's", nil)
+				}
+			}
+		}
+		if n == 0 {
+			c.Bad(rule, FnName(fn)+" | new instance takes over mode", c.P.Pos(fn.Pos()), "Reload no longer sets the mode of the new instance (it starts in INIT)", nil)
+		}
+	}
+}
